@@ -19,7 +19,8 @@ RULE = ("Decimals: all sign x <=4 significant digits x exponent -8..8 (thorough;
         ' ; strings with blanks at their ends'
         ' ; restrictions of restrictions'
         ' ; items of encoded arrays'
-        ' ; strings with tabs and line feeds')
+        ' ; strings with tabs and line feeds'
+        ' ; decimals without integer digits; dateTime-shaped text for a date')
 ASSUMPTIONS = ["Python int()/str()/float()/repr()/Decimal()/datetime are runtime (trusted, covered by correspondence)"]
 PARTIAL = [
     {"theorem": "float round trip", "missing": "Python float repr/parse is runtime; covered by correspondence only"},
